@@ -36,6 +36,8 @@ def parseOp : List String → Option Op
   | ["allkeys"] => some .allKeys
   | ["state", p] => do some (.state (← parsePart p))
   | ["dump", p] => do some (.dump (← parsePart p))
+  | ["smallseg", id] => do some (.smallSeg (← id.toNat?))
+  | ["hdrseg", p] => do some (.hdrSeg (← parsePart p))
   | _ => none
 
 def showKeyOpt : Option Bytes → String
@@ -64,7 +66,8 @@ def parseObs (op : Op) (s : String) : Obs :=
   if s = "err" || s.startsWith "err-" || s = "bad-op" then .err s else
   match op with
   | .create _ => orOther ((parseNats s).map .ids)
-  | .delete _ | .reopen | .compact _ | .threshold _ | .segCompact => if s = "ok" then .ok else other
+  | .delete _ | .reopen | .compact _ | .threshold _ | .segCompact | .smallSeg _ | .hdrSeg _ =>
+    if s = "ok" then .ok else other
   | .delKey _ | .id _ | .torn .. => orOther (s.toNat?.map .id)
   | .key _ => orOther ((parseKeyOpt s).map .key)
   | .tornDel .. => orOther ((parseBool s).map .bool)
@@ -83,13 +86,13 @@ def parseObs (op : Op) (s : String) : Obs :=
 def step (st : State) (toks : List String) : State × String :=
   match parseOp toks with
   | some op =>
-    let (st2, a) := Influx.C13.step st op
+    let (st2, a) := Influx.C13.stepM st op
     -- answers that depend on a partition whose on-disk index holds duplicate keys/ids are
     -- not predicted (the probe order of the on-disk hash map is not modelled)
     let amb := (touches op).any fun i =>
       (match st.parts[i]? with | some p => p.ambiguous | none => false) ||
       (match st2.parts[i]? with | some p => p.ambiguous | none => false)
-    (st2, if amb then "*" else render a)
+    (st2, if amb || a == .err "unmodelled" then "*" else render a)
   | none => (st, "bad-op")
 
 def tagsOf (tr : List (Op × Obs)) : List String :=
